@@ -81,6 +81,7 @@ def run(ctx):
     ctx.floor('R15.1', 'density/probability/cdf functions', nfun, 21)
     r152(ctx, dists)
     r153(ctx)
+    r154_inverse_pairs(ctx, dists)
 
 
 def r152(ctx, dists):
@@ -180,3 +181,48 @@ def r153(ctx):
     if not ok:
         ctx.finding('R15.3', 'DistNormalTrunc.inverse_cumulative_probability:guard', dc, f2, 'the truncated-normal inverse cdf does not refuse probabilities outside [0, 1]',
                     where='DistNormalTrunc.inverse_cumulative_probability')
+
+
+def r154_inverse_pairs(ctx, dists):
+    """R15.4: cdf(inverse_cdf(y)) == y as an identity of rational functions over erf / erf_inv / exp / log atoms"""
+    from ..algebra import Translator, Rat, p_atom, Unsupported, ctor_field_defs, computing_returns, main_return
+    prog = ctx.prog
+    ctx.rule('R15.4', 'cumulative_probability(inverse_cumulative_probability(y)) == y for every computed return of the inverse, decided by exact rational-function '
+                      'algebra with the laws erf(erf_inv z) = z, exp(log z) = z (constructor-defined fields substituted)')
+    decided = 0
+    for c in dists:
+        dcf, cdf = prog.resolve(c, 'cumulative_probability')
+        dci, inv = prog.resolve(c, 'inverse_cumulative_probability')
+        if cdf is None or inv is None or any(unparse(d) == 'abstractmethod' for f in (cdf, inv) for d in f.decorator_list):
+            continue
+        if not computing_returns(cdf) or not computing_returns(inv):
+            continue                                     # e.g. `raise NotImplementedError`-style stubs
+        fdefs, params = ctor_field_defs(prog, c)
+        for direction in ('cdf(inverse(y))', 'inverse(cdf(x))'):
+            outer, inner, odc = (cdf, inv, dcf) if direction.startswith('cdf') else (inv, cdf, dci)
+            var = 'y' if direction.startswith('cdf') else 'x'
+            inner_dc = dci if direction.startswith('cdf') else dcf
+            for k, r in enumerate(computing_returns(inner)):
+                ctx.examined()
+                tr = Translator(prog, c, fdefs)
+                tr.set_ctor_params(params)
+                v = Rat(p_atom(var))
+                try:
+                    om = main_return(outer)
+                    if om is None:
+                        raise Unsupported(f'{odc.name}.{outer.name} has {len(computing_returns(outer))} computed returns')
+                    mid = tr.expr(r.value, {inner.args.args[1].arg: v}, inner_dc.name)
+                    res = tr.expr(om, {outer.args.args[1].arg: mid}, odc.name)
+                    ok = res.equals(v)
+                except Unsupported as e:
+                    ctx.note(f'R15.4: {c} {direction} return #{k + 1} not expressible in the algebra ({e}); not decided')
+                    continue
+                decided += 1
+                ctx.ob('R15.4', f'{c}:{direction}:{k}', ok, sample=f'{c}: {direction} with inner return `{short(r.value, 60)}` simplifies to {str(res)[:80]}')
+                if not ok:
+                    ctx.finding('R15.4', f'{c}.{inner.name}:{direction}:{short(r.value, 40)}', inner_dc, r,
+                                f'{direction} is not the identity on the path returning `{short(r.value, 70)}`: it simplifies to `{str(res)[:160]}` instead of {var}: '
+                                'the cumulative distribution function and its inverse are not mutually inverse (declared quantiles disagree with the cdf and the sampler)',
+                                where=f'{inner_dc.name}.{inner.name}')
+    ctx.floor('R15.4', 'cdf / inverse compositions decided', decided, 6)
+    ctx.exhaustive['R15.4 computed return paths of every cdf/inverse pair'] = True
